@@ -14,7 +14,7 @@ package maven
 //@   comparator e1 ~ e2 where known(e1) && known(e2)      [C01]   // everything outside the finding's region stays live
 // ---- ComparableVersion on two tokens (C12): numbers numerically; known qualifiers by the rank table; an unknown qualifier after
 // every known one; unknown qualifiers alphabetically; a pre-release or unknown qualifier below any number
-//@   ensures numbers: e1.isNumber && e2.isNumber ==> result == (intof(e1.value) < intof(e2.value) ? -1 : (intof(e1.value) > intof(e2.value) ? 1 : 0))   [C12]
+//@   ensures numbers: e1.isNumber && e2.isNumber ==> result == (intof(e1.value) < intof(e2.value) ? -1 : (intof(e1.value) > intof(e2.value) ? 1 : 0))   [C03 C12]
 //@   ensures qualifier-rank: !e1.isNumber && !e2.isNumber && has(qualifierOrder, strof(e1.value)) && has(qualifierOrder, strof(e2.value)) ==> result == (qualifierOrder[strof(e1.value)] < qualifierOrder[strof(e2.value)] ? -1 : (qualifierOrder[strof(e1.value)] > qualifierOrder[strof(e2.value)] ? 1 : 0))   [C12]
 //@   ensures known-before-unknown: !e1.isNumber && !e2.isNumber && has(qualifierOrder, strof(e1.value)) && !has(qualifierOrder, strof(e2.value)) ==> result == -1   [C12]
 //@   ensures unknown-alphabetical: !e1.isNumber && !e2.isNumber && !has(qualifierOrder, strof(e1.value)) && !has(qualifierOrder, strof(e2.value)) ==> result == (strof(e1.value) < strof(e2.value) ? -1 : (strof(e1.value) > strof(e2.value) ? 1 : 0))   [C12]
